@@ -299,6 +299,10 @@ def checkGrammar (_params : List String) (lines : List String) : CaseResult := I
     | ["obs", "noquiesce"] => pure ()
     | "obs" :: _ => ts := ts.push .other
     | "harness-error" :: rest => r := { r with bad := ("harness-error " ++ " ".intercalate rest) :: r.bad }
+    | "lagged" :: rest =>
+      -- a subscriber that kept the trace values and read them after the run: it must read what the prompt one read
+      if (kv rest "at").getD "-1" != "-1" then
+        r := { r with specs := s!"subscribers_read_different_traces: trace {(kv rest "at").getD "?"} of {(kv rest "n").getD "?"}: the prompt subscriber read [{(kv rest "prompt").getD ""}], a subscriber reading the same trace value after the run reads [{(kv rest "lagged").getD ""}]" :: r.specs }
     | _ => pure ()
   let inner (i : Nat) : Bool := innerNames.contains (names[i]?.getD "")
   if !causal ts.toList then
